@@ -1,3 +1,4 @@
+import ZCV.Lemmas.CodeEqCmdline
 import ZCV.Lemmas.OverrideBad
 import ZCV.Lemmas.Datatypes
 import ZCV.Lemmas.NoInternalLower
@@ -810,5 +811,80 @@ theorem C14_end_to_end_imports_stock (eenv : Elab.Env) (fuel : Nat) (doc : Elab.
   C14_end_to_end_imports eenv fuel doc S
     (by intro kt s r hs hr; rw [hconv] at hr; exact Elab.stockConv_key_ne_nil kt s r hs hr) hS stockConv env pkgs url
     lines specs (C14_keyIdemOn_stockConv S) htop hcomp hovs
+
+end ZCV.Props.C14
+
+/-!
+# C14, the specifier syntax restated for the code as it is now (generated by `harness/zcv/pytrans.py`)
+
+`Gen.Code.addOption` (`ZCV/Gen/CodeCmdline.lean`) is the translation of the Python source of
+`ExtendedConfigLoader.addOption`, regenerated from the working tree on every run and rendered as the function returning
+the item `(optpath, val, pos)` it appends to `self.clopts`; `ZCV/Lemmas/CodeEqCmdline.lean` proves it equal to the model's
+`addOption` for every specifier.  `embedAddOption` re-tags (the model's item gets the default position the code supplies;
+the `ConfigurationSyntaxError` keeps url, line, column -1 and the attribute `specifier`; the message is dropped).
+-/
+namespace ZCV.Props.C14
+open ZCV ZCV.Cfg ZCV.CodeEq
+
+/-- generated code = model, every specifier (no position given) -/
+theorem C14_code_addOption_eq (spec : Str) : Gen.Code.addOption spec none = embedAddOption spec (addOption spec) :=
+  code_addOption_eq spec
+
+/-- giving the default position explicitly changes nothing -/
+theorem C14_code_addOption_default_pos (spec : Str) :
+    Gen.Code.addOption spec (some cmdlinePos) = Gen.Code.addOption spec none := code_addOption_default_pos spec
+
+/-- the re-tagging keeps path and value of an accepted specifier -/
+theorem C14_code_embedAddOption_ok_injective (spec : Str) (a b : OptItem)
+    (h : embedAddOption spec (.ok a) = embedAddOption spec (.ok b)) : a.path = b.path ∧ a.val = b.val :=
+  embedAddOption_ok_injective spec a b h
+example : embedAddOption [] (.ok { path := [['a']], val := [] }) ≠ embedAddOption [] (.ok { path := [['b']], val := [] }) := fun h =>
+  absurd (C14_code_embedAddOption_ok_injective _ _ _ h).1 (by decide)
+
+/-- (the code) a specifier without `=` is refused WHEN IT IS ADDED: `ConfigurationSyntaxError` at the command-line
+    position, carrying the specifier -/
+theorem C14_code_no_equals_refused (spec : Str) (h : spec.contains '=' = false) :
+    Gen.Code.addOption spec none =
+      .error (.ConfigurationSyntaxError (some "<command-line option>".toList) (some (-1)) (some (-1)) (some spec)) := by
+  rw [code_addOption_eq]
+  unfold addOption
+  simp only [h, Bool.not_false, ↓reduceIte]
+  rfl
+example : Gen.Code.addOption "novalue".toList none =
+    .error (.ConfigurationSyntaxError (some "<command-line option>".toList) (some (-1)) (some (-1)) (some "novalue".toList)) :=
+  C14_code_no_equals_refused _ (by decide)
+
+/-- (the code) a specifier with an empty path component is refused when it is added -/
+theorem C14_code_empty_component_refused (spec : Str) (h : spec.contains '=' = true)
+    (he : (addOption.splitOn (spec.takeWhile (· != '=')) '/').contains [] = true) :
+    Gen.Code.addOption spec none =
+      .error (.ConfigurationSyntaxError (some "<command-line option>".toList) (some (-1)) (some (-1)) (some spec)) := by
+  rw [code_addOption_eq]
+  unfold addOption
+  simp only [h, Bool.not_true, Bool.false_eq_true, ↓reduceIte, he]
+  rfl
+example : Gen.Code.addOption "a//b=1".toList none =
+    .error (.ConfigurationSyntaxError (some "<command-line option>".toList) (some (-1)) (some (-1)) (some "a//b=1".toList)) :=
+  C14_code_empty_component_refused _ (by decide) (by decide)
+
+/-- (the code) every other specifier is accepted: the path split at `/`, the value taken verbatim after the first `=`,
+    the command-line position -/
+theorem C14_code_wellformed_accepted (spec : Str) (h : spec.contains '=' = true)
+    (he : (addOption.splitOn (spec.takeWhile (· != '=')) '/').contains [] = false) :
+    Gen.Code.addOption spec none =
+      .ok (addOption.splitOn (spec.takeWhile (· != '=')) '/', (spec.dropWhile (· != '=')).drop 1, cmdlinePos) := by
+  rw [code_addOption_eq, C14_wellformed_accepted spec h he]
+  rfl
+example : Gen.Code.addOption "a/b=c=d".toList none = .ok ([['a'], ['b']], "c=d".toList, cmdlinePos) :=
+  C14_code_wellformed_accepted _ (by decide) (by decide)
+
+/-- (the code) `OptionBag.basic_key` with the registry's `basic-key`, and `_normalize_case`: what `Cfg.bagSectionInfo` uses -/
+theorem C14_code_bag_basic_key_eq (s : Str) (pos : Str × Int × Int) :
+    Gen.Code.OptionBag_basic_key Gen.Code.basic_key s pos =
+      match DT.basicKey s with
+      | .ok k => .ok k
+      | .error _ => .error (.ConfigurationSyntaxError (some pos.1) (some pos.2.1) (some pos.2.2) none) :=
+  code_bag_basic_key_eq s pos
+theorem C14_code_normalize_case_eq (s : Str) : Gen.Code.OptionBag_normalize_case s = .ok (lower s) := code_normalize_case_eq s
 
 end ZCV.Props.C14
